@@ -50,6 +50,7 @@ type c20Gen struct {
 	rng   *rand.Rand
 	feat  map[string]bool
 	tricky bool // allow the default spellings listed as known finding patterns
+	qual   bool // the table name is schema-qualified (findings are not combined: F33 shapes only on unqualified tables)
 }
 
 func (g *c20Gen) f(s string) { g.feat[s] = true }
@@ -306,6 +307,7 @@ func c20GenSpec(rng *rand.Rand, tricky bool) c20Spec {
 	hasGModel := false
 	qual := rng.Intn(4) == 0 // schema-qualified table name (c20_cols.go)
 	if qual {
+		g.qual = true
 		sp.Qual = "main"
 		g.f("table:qualified-main")
 	}
